@@ -42,13 +42,19 @@ def state_key(I, ctx, ref):
     return models.struct_key(I, ctx, ref)
 
 
-def pure_cut(result, name=None):
+def pure_cut(result, name=None, ignore_fields=()):
     """contract `pure: modifies nothing, raises nothing, result is a function of (state, arguments)`.
     result: 'bool' | 'chips' | 'int'.  The same (state, arguments) give the same result symbol, so two
     calls on an unchanged state agree (determinism is part of the callee's contract)."""
     def cut(I, ctx, fn, args, kwargs, node):
         from . import models
-        key = (fn.qual, models.struct_key(I, ctx, args[0]), tuple(models.struct_key(I, ctx, a) for a in args[1:]))
+        if ignore_fields:
+            # the callee does not read these fields (frame of the callee, checked structurally by the driver that uses this)
+            st, heap = models.content(I, ctx, args[0])
+            skey = tuple((k, models.struct_key(I, ctx, models.wrap(v, heap, ctx))) for k, v in st.fields.items() if k not in ignore_fields)
+        else:
+            skey = models.struct_key(I, ctx, args[0])
+        key = (fn.qual, skey, tuple(models.struct_key(I, ctx, a) for a in args[1:]))
         memo = I.memo_uf
         if key not in memo:
             k = len(memo)
@@ -128,7 +134,13 @@ def pots_cut(vc, shape, contract_cls, clause='pots_hold_the_collected_chips', pr
     st = importlib.import_module('pokerkit.state')
     counter = [0]
 
+    memo = {}
+
     def cut(I, ctx, fn, args, kwargs, node):
+        from . import models
+        skey = models.struct_key(I, ctx, args[0])
+        if skey in memo:               # State.pots is a function of the state: the same state has the same pots
+            return memo[skey]
         k = counter[0]
         counter[0] += 1
         b0 = dict(vc.bindings)
@@ -159,5 +171,6 @@ def pots_cut(vc, shape, contract_cls, clause='pots_hold_the_collected_chips', pr
             for d in defs2:
                 ctx.assume(d)
             ctx.assume(t2)
+        memo[skey] = res
         return res
     return cut
